@@ -6,6 +6,7 @@ import ast
 from sa.absint import Evaluator, all_effects
 from sa.callgraph import CallGraph
 from sa.index import AnalysisError, walk_no_nested
+from rules.setuse import order_observable, parents_of
 from sa.terms import App, Const, Ref, Sym, contains, subterms
 from . import generic
 
@@ -218,12 +219,17 @@ def encode_path_rules(ctx):
         if f.name in ("to_obj", "from_cbor", "pretty_format_obj"):
             continue
         bad = []
+        par = parents_of(f.node)
         for n in walk_no_nested(f.node):
             if isinstance(n, ast.Call):
                 fn = n.func
                 name = fn.id if isinstance(fn, ast.Name) else (fn.attr if isinstance(fn, ast.Attribute) else "")
-                if name in ("sorted", "reversed", "set", "frozenset") and isinstance(fn, ast.Name):
+                if name in ("sorted", "reversed") and isinstance(fn, ast.Name):
                     bad.append((n, name))
+                if name in ("set", "frozenset") and isinstance(fn, ast.Name):
+                    why = order_observable(f.node, n, par)
+                    if why:
+                        bad.append((n, f"{name} ({why})"))
                 if name in ("sort", "reverse") and isinstance(fn, ast.Attribute):
                     bad.append((n, "." + name))
                 r = repo.resolve_expr(f.module, fn)
@@ -234,7 +240,9 @@ def encode_path_rules(ctx):
                             mod=f.module, node=n, function=fq, expected="cbor2.dumps(obj) without options",
                             found=f"options {kws or 'extra positional arguments'}")
             if isinstance(n, (ast.Set, ast.SetComp)):
-                bad.append((n, "set literal"))
+                why = order_observable(f.node, n, par)
+                if why:
+                    bad.append((n, f"set literal ({why})"))
         if bad:
             for n, what in bad:
                 R.fail("C02-D2 order preserving encode path", f"{fq}: {what}", mod=f.module, node=n, function=fq,
